@@ -50,7 +50,8 @@ type Scenario struct {
 	RolloutID   bool       `json:"rolloutID,omitempty"`
 	NoCanarySvc bool       `json:"disableGenerateCanaryService,omitempty"`
 	Events      []Injected `json:"events,omitempty"`
-	Profile     string     `json:"profile"` // uniform | ctrl-eager | env-eager | user-eager
+	Pre         []string   `json:"pre,omitempty"` // user actions performed after setup, before the release
+	Profile     string     `json:"profile"`       // uniform | ctrl-eager | env-eager | user-eager
 	Seed        int64      `json:"seed"`
 	ApproveLag  int        `json:"approveLag"` // actions to wait before approving a paused step
 	MaxSurge    string     `json:"maxSurge,omitempty"`
@@ -91,6 +92,9 @@ func (s *Scenario) Sig() string {
 			c += "d"
 		}
 		shape += c + "."
+	}
+	if len(s.Pre) > 0 {
+		ev = append(ev, "pre:"+strings.Join(s.Pre, "+"))
 	}
 	return fmt.Sprintf("%s/%s/%s/%s/%s", s.Kind, s.Style, s.Provider, shape, strings.Join(ev, ","))
 }
